@@ -128,6 +128,25 @@ fn join_ok_frame(region: &str, kind: u8) -> Frame {
             b.push(if rr::is_fixed(region) { 1 } else { 0 });
             Frame::JoinAccept { join_nonce: 6, net_id: 0x13, devaddr: DEVADDR, dl_settings: 0, rx_delay: 1, cflist: Some(b), tamper: Tamper::None, trunc: 0 }
         }
+        4 => {
+            // fixed plans: a mask that keeps only half of sub-band 2 (channels 8..11) and its 500 kHz channel;
+            // dynamic plans: two channels, the others unused
+            let b = if rr::is_fixed(region) {
+                let mut b = vec![0x00, 0x0F, 0, 0, 0, 0, 0, 0, 0x02];
+                b.extend([0u8; 6]);
+                b.push(1);
+                b
+            } else {
+                let f0 = cmds::freqs(region)[3];
+                let mut b = vec![];
+                for x in [f0, 0, f0 + 400_000, 0, 0] {
+                    b.extend(cmds::freq_bytes(x));
+                }
+                b.push(0);
+                b
+            };
+            Frame::JoinAccept { join_nonce: 9, net_id: 0x13, devaddr: DEVADDR, dl_settings: 0, rx_delay: 1, cflist: Some(b), tamper: Tamper::None, trunc: 0 }
+        }
         _ => {
             let f = cmds::freqs(region);
             let mut b = vec![];
@@ -148,7 +167,7 @@ fn enabled_events(region: &str, joined: bool) -> Vec<CEv> {
         for d in 0..ndraw {
             v.push(CEv::JoinTry { draw: d });
         }
-        for k in 0..4 {
+        for k in 0..5 {
             v.push(CEv::JoinOk { kind: k });
         }
         if fixed {
@@ -170,6 +189,10 @@ fn enabled_events(region: &str, joined: bool) -> Vec<CEv> {
         v.push(CEv::SetDr(d));
     }
     v.push(CEv::JoinOk { kind: 3 });
+    // a new join from a joined state: without a CFList (the plan of the previous session stays), and with one that
+    // keeps part of a sub-band / leaves CFList slots unused
+    v.push(CEv::JoinOk { kind: 0 });
+    v.push(CEv::JoinOk { kind: 4 });
     v
 }
 
@@ -536,7 +559,7 @@ pub fn run(tier: Tier, replay: Option<&str>) {
         "samples": [{"cfg": serde_json::to_value(&runs[0]).unwrap(), "history": [serde_json::to_value(CEv::Cmd { label: "adr-ch3-only".into(), bytes: cmds::link_adr(15, 15, 8, 0, 1, false).bytes }).unwrap(), serde_json::to_value(CEv::Up { draw: 3 }).unwrap()]}],
         "evaluations": ctx.evals(),
         "distinct_nontrivial": states,
-        "rule": "BFS over channel-plan histories on the real nb and async (ABP: Class A, OTAA: Class C enabled) devices for every region x board (radio max power, antenna gain) x {ABP, OTAA with join-bias settings, ADR back-off pre-loaded}; in every reached state the next uplink / join attempt is expanded once per first RNG draw (0..63 for 72-channel plans, 0..15 for dynamic plans, fair tail afterwards); other events: LinkADRReq (mask / data rate / TX power), NewChannelReq create/delete, DlChannelReq, JoinAccepts with plain / full / minimal / out-of-band CFLists, set_datarate for every region-defined rate. 72-channel plans additionally: each of the 72 masks that leave one channel (plus, for 125 kHz channels, the channel 32 above it) enabled, installed by LinkADRReq downlinks, then an uplink for every first RNG draw 0..63. Every TxConfig handed to the radio is judged against band, channel plan + mask snapshot, regional data-rate table and the power bound",
+        "rule": "BFS over channel-plan histories on the real nb and async (ABP: Class A, OTAA: Class C enabled) devices for every region x board (radio max power, antenna gain) x {ABP, OTAA with join-bias settings, ADR back-off pre-loaded}; in every reached state the next uplink / join attempt is expanded once per first RNG draw (0..63 for 72-channel plans, 0..15 for dynamic plans, fair tail afterwards); other events: LinkADRReq (mask / data rate / TX power), NewChannelReq create/delete, DlChannelReq, JoinAccepts with plain / full / minimal / out-of-band / partial-sub-band CFLists (also as re-joins from a joined state), set_datarate for every region-defined rate. 72-channel plans additionally: each of the 72 masks that leave one channel (plus, for 125 kHz channels, the channel 32 above it) enabled, installed by LinkADRReq downlinks, then an uplink for every first RNG draw 0..63. Every TxConfig handed to the radio is judged against band, channel plan + mask snapshot, regional data-rate table and the power bound",
         "depth": depth,
         "boards": boards,
         "configurations": runs.len(),
